@@ -64,6 +64,10 @@ POOL = [
     "Arr := 3; Map := 4; JSON := 5; nil", "[nil.try.{|u| \"[1]\".decJSON}.A, nil.try.{|u| [[1, 2], [3, 4]].T}.A, nil.try.{|u| [1, 1].tally.len}.A].p",
     "Either := 7; EitherVal := 8; StopIterErr := 6; nil", "[nil.try.{|u| 1.try.A}.A, nil.try.{|u| [1, 2].chain([3]).A}.A, nil.try.{|u| [1].first}.A].p",
     "ValueErr := 1; TypeErr := 2; ZeroDivisionErr := 3; nil", "[nil.try.{|u| [].avg}.err.S, nil.try.{|u| 'a.call(1)}.A, nil.try.{|u| \"x\".call(1)}.err.S].p",
+    # names met for the first time by an earlier program, in another order than a later program uses them (anything numbered by first use would show)
+    "zzordB := 1; zzordA := 2; zzordC := 3; nil", "'zzordC.p; 'zzordA.p; {zzordB: 1}.keys.p",
+    "noisy := {|k| {'==: m{|o| k.p; true}}}; ({zzordA: noisy(\"A\"), zzordB: noisy(\"B\"), zzordC: noisy(\"C\")} == {zzordA: 0, zzordB: 0, zzordC: 0}).p",
+    "[{zzordC: 1, zzordA: 2, zzordB: 3}.keys, %{'zzordC: 1, 'zzordA: 2}.keys, {zzordB: 1, zzordA: 2}.S, {|zzordC: 1, zzordA: 2| \\_}(zzordA: 5, zzordC: 6)].p",
     # programs that read part, all, or more than all of their standard input
     "[<>, <>]", "<>; <>; <>", "a := <>; a.p; 1",
 ]
